@@ -31,9 +31,11 @@ ASSUMPTIONS = [
     "extents that dask itself declares unknown (NaN chunks after boolean masks / unique / nonzero) are not compared; everything else of such nodes is",
     "a program on which the same NumPy pipeline raises is not an array expression (counted inapplicable); dask NotImplementedError and the "
     "documented 'chunk sizes are unknown' ValueError are refusals (counted rejected)",
+    "a failure on a node whose immediate prefix node already violates the invariant is attributed to the prefix (which is a program of its "
+    "own in the enumeration) and only counted (inherited_from_prefix)",
 ]
 
-BASES = [(5,), (2, 3), (3, 4), (2, 2, 2)]
+BASES = [(5,), (2, 3), (3, 2), (3, 4), (2, 2, 2)]
 
 
 # ---------------------------------------------------------------------------------------------- step alphabet
@@ -244,7 +246,7 @@ def RULE(tier):
         f"{prog} (steps: elementwise/broadcast, slicing/int/list/boolean-mask indexing, setitem, reductions/scans/topk, rechunk, reshape/"
         "transpose/concatenate/stack/pad/tril/diff/roll/repeat/tile/take/broadcast_to/squeeze, map_overlap/overlap+trim/sliding_window_view, "
         "unique/bincount/nonzero/histogram/digitize/isin/count_nonzero/coarsen/compress/argwhere) on from_array of shapes "
-        f"{BASES} under EVERY chunking (16+8+32+8). Checked on the final node of every pipeline: computed shape/dtype == lazy shape/dtype; chunks sum "
+        f"{BASES} under EVERY chunking (16+8+8+32+8 = 72). Checked on the final node of every pipeline: computed shape/dtype == lazy shape/dtype; chunks sum "
         "to shape; every block computed alone (each to_delayed object; corner blocks also via .blocks[idx]"
         + ("; all blocks via .blocks" if tier == "thorough" else "")
         + ") has the declared chunk shape; blocks placed by index reassemble compute(). non-trivial = checked node has >= 2 blocks."
@@ -404,11 +406,33 @@ def known_class(step, failure, prev, y_prev):
             return "minlength<=max"
         if step == "cumsum0" and failure == "compute-raises:ValueError" and _has_empty_block(prev, 0):
             return "empty-block"
+        if step == "argmax_last" and failure == "compute-raises:TypeError" and _unknown_chunks(prev) and prev.numblocks[-1] == 1:
+            return "single-unknown-chunk"
+        if step == "diff" and failure == "dask-raises:TypeError" and y_prev.dtype == bool:
+            return "bool-input"
     except Hang:
         raise
     except Exception:  # noqa: BLE001
         return None
     return None
+
+
+def _own(problems):
+    """problems of the node itself (the .blocks view of a 0-d array is a defect of BlockView, not of the node)"""
+    return [p for p in problems if not (len(p) > 2 and p[2] == "blocksview")]
+
+
+def _healthy(node):
+    """does the invariant hold on this (prefix) node?  Used only to attribute a failure: every prefix is a program of its
+    own in the enumeration and is reported there, so a failure downstream of a violating prefix is a consequence, not a
+    new finding (e.g. everything built on bincount's wrong lazy length)."""
+    try:
+        problems, _ = check_node(node)
+        return not _own(problems)
+    except Hang:
+        raise
+    except Exception:  # noqa: BLE001
+        return False
 
 
 def run_case(case, ctx):
@@ -420,11 +444,12 @@ def run_case(case, ctx):
         warnings.simplefilter("ignore")
         # NumPy shadow: applicability only
         try:
-            y = y_prev = x
+            ys = [x]
             for s in prog:
-                y_prev, y = y, S[s][1](y)
+                y = S[s][1](ys[-1])
                 if not _is_array(y):
                     raise TypeError("not an array")
+                ys.append(y)
         except Hang:
             raise
         except Exception:  # noqa: BLE001
@@ -433,9 +458,11 @@ def run_case(case, ctx):
         d = prev = da.from_array(x, chunks=ch)
         last = prog[-1] if prog else "base"
 
-        def key(op, cls):
-            sub = known_class(last, cls, prev, y_prev) if op == last else None
-            return f"{op}:{cls}" + (f":{sub}" if sub else "")
+        def inherited(node, depth):
+            if depth >= 1 and not _healthy(node):
+                ctx.count("inherited_from_prefix")
+                return True
+            return False
 
         for i, s in enumerate(prog):
             try:
@@ -451,9 +478,18 @@ def run_case(case, ctx):
                     # chunk sizes; the exception type/message of such a refusal is not part of any statement
                     ctx.count("rejected_unknown_chunks")
                     return
+                if inherited(d, i):
+                    return
+                cls = f"dask-raises:{type(e).__name__}"
+                sub = known_class(s, cls, d, ys[i])
                 ctx.case(case, nontrivial=False, outcome=("build-raises", s, type(e).__name__))
-                ctx.violation(f"{s}:dask-raises:{type(e).__name__}", case, f"building step {i} ({s}) raised {e!r}; NumPy accepts the pipeline")
+                ctx.violation(f"{s}:{cls}" + (f":{sub}" if sub else ""), case, f"building step {i} ({s}) raised {e!r}; NumPy accepts the pipeline")
                 return
+
+        def key(op, cls):
+            sub = known_class(last, cls, prev, ys[-2]) if (op == last and prog) else None
+            return f"{op}:{cls}" + (f":{sub}" if sub else "")
+
         try:
             problems, nb = check_node(d, all_via_blocks=(ctx.tier == "thorough"))
         except Hang:
@@ -462,10 +498,14 @@ def run_case(case, ctx):
             if _refusal(e):
                 ctx.count("rejected")
                 return
+            if inherited(prev, len(prog) - 1):
+                return
             ctx.case(case, nontrivial=False, outcome=("compute-raises", last, type(e).__name__))
             ctx.violation(key(last, f"compute-raises:{type(e).__name__}"), case, f"computing the node raised {e!r} (lazy shape {d.shape}, chunks {d.chunks})")
             return
         nblocks = int(np.prod(nb)) if nb else 1
+        if _own(problems) and inherited(prev, len(prog) - 1):
+            problems = [p for p in problems if p not in _own(problems)]
         ctx.case(case, nontrivial=nblocks >= 2, outcome=(tuple(len(c) for c in d.chunks), str(d.dtype), tuple(p[0] for p in problems)))
         for cls, detail, *op in problems:
             ctx.violation(key(op[0] if op else last, cls), case, f"{detail}  [lazy shape={d.shape} dtype={d.dtype} chunks={d.chunks}]")
